@@ -67,7 +67,7 @@ type Reader struct {
 	ReadsAfterEnd int
 	// Injected is set once a Fail answer has been given
 	Injected bool
-	ended         bool
+	ended    bool
 }
 
 func (r *Reader) Read(p []byte) (int, error) {
